@@ -640,10 +640,90 @@ class ExecMixin:
             out["exit"].extend(r["exit"])
         return out
 
-    def has_flip(self, st0, H, b):
+    def live_at(self, body, bb):
+        """locals that may be read after entering block bb before being assigned (whole-local backward liveness; a
+        write through a projection counts as a read of the base)"""
+        key = id(body)
+        lv = self.fn_live.get(key)
+        if lv is None:
+            blocks = body["blocks"]
+
+            def places(x, out):
+                if isinstance(x, dict):
+                    if "l" in x and "p" in x and isinstance(x["p"], list):
+                        out.add(x["l"])
+                        for e in x["p"]:
+                            if isinstance(e, dict) and "idx" in e:
+                                out.add(e["idx"])
+                        return
+                    for v in x.values():
+                        places(v, out)
+                elif isinstance(x, list):
+                    for v in x:
+                        places(v, out)
+            use, dfn, succ = [], [], []
+            for b in blocks:
+                u, d = set(), set()
+                for st_ in b["stmts"]:
+                    r = set()
+                    if st_.get("s") == "assign":
+                        places(st_.get("rv"), r)
+                        pl = st_["place"]
+                        if pl["p"]:
+                            places(pl, r)
+                        u |= (r - d)
+                        if not pl["p"]:
+                            d.add(pl["l"])
+                    else:
+                        places(st_, r)
+                        u |= (r - d)
+                t = b["term"]
+                r = set()
+                dest = t.get("dest") if t.get("t") == "call" else None
+                places({k: v for k, v in t.items() if k != "dest"}, r)
+                if dest is not None and dest["p"]:
+                    places(dest, r)
+                u |= (r - d)
+                if dest is not None and not dest["p"]:
+                    d.add(dest["l"])
+                use.append(u)
+                dfn.append(d)
+                k = t.get("t")
+                if k == "goto":
+                    sc = [t["target"]]
+                elif k == "switch":
+                    sc = [x[1] for x in t["targets"]] + [t["otherwise"]]
+                elif k in ("call", "assert", "drop"):
+                    sc = [t["target"]] if t.get("target") is not None else []
+                else:
+                    sc = []
+                if k == "return":
+                    u.add(0) if 0 not in d else None
+                succ.append(sc)
+            live_in = [set() for _ in blocks]
+            changed = True
+            while changed:
+                changed = False
+                for i in range(len(blocks) - 1, -1, -1):
+                    out = set()
+                    for s_ in succ[i]:
+                        out |= live_in[s_]
+                    ni = use[i] | (out - dfn[i])
+                    if ni != live_in[i]:
+                        live_in[i] = ni
+                        changed = True
+            lv = live_in
+            self.fn_live[key] = lv
+        return lv[bb]
+
+    def has_flip(self, st0, H, b, frame=None, head=None):
+        live = self.live_at(frame.body, head) if frame is not None else None
+        mine = {c: i for i, c in enumerate(frame.cells)} if frame is not None else {}
         for cell, v0 in H.cells.items():
             if cell not in st0.cells:
                 continue
+            if live is not None and cell in mine and mine[cell] not in live:
+                continue            # a temporary that is dead at the loop head
             vb = b.cells.get(cell)
             if vb is None or vb is v0:
                 continue
@@ -652,11 +732,14 @@ class ExecMixin:
                     return True
         return False
 
-    def phase_change(self, frame, st0, b):
+    def phase_change(self, frame, st0, b, head=None):
         """a local of enum type that holds one variant on loop entry and another one on this back edge (an accumulator
         turning from Ok(..) into Err(..), a `first_error` going from None to Some): the state starts a new phase of
         the loop"""
-        for cell in frame.cells:
+        live = self.live_at(frame.body, head) if head is not None else None
+        for i, cell in enumerate(frame.cells):
+            if live is not None and i not in live:
+                continue                # a temporary that is dead at the loop head (the last `next()` result, ...)
             v0 = st0.cells.get(cell)
             vb = b.cells.get(cell)
             if isinstance(v0, VAdt) and isinstance(vb, VAdt) and v0.vidx.is_const() and vb.vidx.is_const() and v0.vidx.c != vb.vidx.c:
@@ -713,11 +796,11 @@ class ExecMixin:
                     self.loop_stack.pop()
                 # back edges on which an enum-typed local has changed its variant are not merged into this phase's
                 # invariant: the loop is analysed again from each of them (below), at most two phases deep
-                backs = [b for b in res["back"] if phase >= 2 or not self.phase_change(frame, st0, b)]
+                backs = [b for b in res["back"] if phase >= 2 or not self.phase_change(frame, st0, b, head)]
                 # ... and a back edge on which some enum value has changed its variant (an iterator's pending item gone
                 # to None, a parked error) may be the last one: if one more evaluation of the head certainly leaves the
                 # loop from it, it is an exit
-                backs = [b for b in backs if not (self.has_flip(st0, H, b) and self.terminal_exit(frame, b, head, loopset) is not None)]
+                backs = [b for b in backs if not (self.has_flip(st0, H, b, frame, head) and self.terminal_exit(frame, b, head, loopset) is not None)]
                 changed = False
                 for b in backs:
                     for cell, v0 in H.cells.items():
@@ -800,12 +883,12 @@ class ExecMixin:
         items = [(s, x) for k, s, x in succs if k == "goto"]
         rets = [(s, x) for k, s, x in succs if k == "ret"]
         res = self.explore(frame, items, head, loopset)
-        later = [b for b in res["back"] if phase < 2 and self.phase_change(frame, st0, b)]
+        later = [b for b in res["back"] if phase < 2 and self.phase_change(frame, st0, b, head)]
         if later:
             res = dict(res, back=[b for b in res["back"] if not any(b is x for x in later)])
         term_rets, term_exits, keep = [], [], []
         for b in res["back"]:
-            te = self.terminal_exit(frame, b, head, loopset) if self.has_flip(st0, H, b) else None
+            te = self.terminal_exit(frame, b, head, loopset) if self.has_flip(st0, H, b, frame, head) else None
             if te is None:
                 keep.append(b)
             else:
